@@ -223,7 +223,7 @@ extern "C" void vp_main() {
     bool armedNow = preAm == SYN && (postAm != SYN || nAddr >= 1);
     if (armedNow) vp_assert("arming-only-with-expired-lock-counter-pending-request-no-current-request-in-skip-or-ready",
                             preLock == 0 && NQ >= 1 && !cfg.readOnly && (preState == bs_skip || preState == bs_ready) && !preCont);
-#if NQ >= 1 && ARM <= 1
+#if NQ >= 1 && (ARM == 1 || (ARM == 0 && (HGROUP == 1 || HGROUP == 2)))   // armed before, or armed in this step (skip/ready only)
     if (nAddr == 1) vp_cover("arbitration-address-written-after-lone-syn");
 #endif
 #if HGROUP <= 1 && (!defined(ENV_GENSYN) || ENV_GENSYN == 1)
